@@ -363,3 +363,69 @@ Proof. intros. cbn. rewrite app_nil_r. reflexivity. Qed.
 Lemma skel_prog_targets : forall {C} n targets (payload : cmdkind -> nat -> C) k,
   skel_prog n targets payload (model_skel_targets k) = sends targets (payload k) ++ recvs targets.
 Proof. intros. cbn. rewrite app_nil_r. reflexivity. Qed.
+
+(* ---------- the scripted instance: a step over all workers, under any schedule, returns what the
+   DummyVecEnv loop of Model/VecEnv.v (step_loop) returns ---------- *)
+Definition step_reply (a : Z) (w : wstate) : sres := snd (sworker_step w (CmdStep a)).
+Definition step_state (a : Z) (w : wstate) : wstate := fst (sworker_step w (CmdStep a)).
+Definition reply_of (p : sout Z Z * option Z) : sres := ResStep (sout_tuple (fst p)) (snd p).
+
+Lemma skipn_nth_cons : forall (l : list Z) k d, k < length l -> skipn k l = nth k l d :: skipn (S k) l.
+Proof.
+  induction l as [|x l IH]; intros k d H; [cbn in H; lia|].
+  destruct k; [reflexivity|]. cbn [skipn nth]. apply IH. cbn in H. lia.
+Qed.
+
+Lemma step_facts : forall w a e' ri' o c,
+  sub_step sc_step sc_reset (ws_env w) (ws_ri w) a = (e', ri', o, c) ->
+  ws_env (step_state a w) = e' /\ ws_ri (step_state a w) = ri' /\ step_reply a w = reply_of (o, ri').
+Proof.
+  intros w a e' ri' o c H. unfold step_state, step_reply, reply_of. cbn [sworker_step]. rewrite H. cbn. auto.
+Qed.
+
+Lemma step_loop_workers : forall (ws : list wstate) k (acts : list Z),
+  length acts = k + length ws ->
+  let r := step_loop sc_step sc_reset (map ws_env ws) (map ws_ri ws) (skipn k acts) in
+  let iw := combine (seq k (length ws)) ws in
+  fst (fst (fst r)) = map (fun p => ws_env (step_state (nth (fst p) acts 0%Z) (snd p))) iw /\
+  snd (fst (fst r)) = map (fun p => ws_ri (step_state (nth (fst p) acts 0%Z) (snd p))) iw /\
+  map reply_of (combine (snd (fst r)) (snd (fst (fst r)))) = map (fun p => step_reply (nth (fst p) acts 0%Z) (snd p)) iw.
+Proof.
+  induction ws as [|w ws IH]; intros k acts L.
+  - cbn. auto.
+  - cbn [length] in L. cbv zeta.
+    rewrite (skipn_nth_cons acts k 0%Z) by lia.
+    cbn [map length seq combine step_loop].
+    specialize (IH (S k) acts). cbv zeta in IH.
+    destruct (sub_step sc_step sc_reset (ws_env w) (ws_ri w) (nth k acts 0%Z)) as [[[e' ri'] o] c] eqn:Hsub.
+    destruct (step_loop sc_step sc_reset (map ws_env ws) (map ws_ri ws) (skipn (S k) acts)) as [[[es rs] os] cs] eqn:Lp.
+    cbn [fst snd] in *. destruct IH as (A & B & D); [lia|].
+    destruct (step_facts _ _ _ _ _ _ Hsub) as (F1 & F2 & F3).
+    cbn [combine map fst snd]. rewrite F1, F2, F3, D, A, B. auto.
+Qed.
+
+Theorem subproc_step_eq_dummy_step : forall (ws : list wstate) (acts : list Z),
+  length acts = length ws ->
+  let n := length ws in
+  let r := step_loop sc_step sc_reset (map ws_env ws) (map ws_ri ws) acts in
+  exists sq,
+    seq_exec sworker_step (mk_sconfig [] (map (fun s => mk_sworker [] s) ws))
+             (sends (seq 0 n) (fun i => CmdStep (nth i acts 0%Z)) ++ recvs (seq 0 n)) = Some sq /\
+    map fst (s_log sq) = seq 0 n /\
+    map snd (s_log sq) = map reply_of (combine (snd (fst r)) (snd (fst (fst r)))) /\
+    map (fun w => ws_env (sw_st w)) (s_workers sq) = fst (fst (fst r)) /\
+    map (fun w => ws_ri (sw_st w)) (s_workers sq) = snd (fst (fst r)) /\
+    Forall (fun w => sw_queue w = []) (s_workers sq).
+Proof.
+  intros ws acts L n r.
+  pose proof (step_loop_workers ws 0 acts L) as H. cbv zeta in H. cbn [skipn] in H.
+  fold r in H. destruct H as (A & B & D).
+  eexists. split; [apply seq_all_method|]. cbn [s_log s_workers app]. fold n.
+  rewrite D, A, B. clear A B D r. unfold n. clear n L.
+  generalize 0 as k.
+  induction ws as [|w ws IH]; intros k.
+  - cbn. repeat split; constructor.
+  - cbn [length seq combine map fst snd sw_st sw_queue]. destruct (IH (S k)) as (I1 & I2 & I3 & I4 & I5).
+    rewrite I1, I2, I3, I4. unfold step_reply, step_state.
+    repeat split. constructor; [reflexivity|exact I5].
+Qed.
